@@ -34,7 +34,7 @@ RouteOf(dest) ==
   ELSE IF "route_last_match" \in Dev THEN RxTable[CHOOSE i \in hits : \A j \in hits : j <= i][2]
        ELSE RxTable[CHOOSE i \in hits : \A j \in hits : i <= j][2]
 
-EvRecv(b) == [a |-> "Recv", b |-> b, corrupt |-> FALSE, rx |-> RxEval(b.dest), tx |-> TxEval(b.dest), own |-> b.src = Node,
+EvRecv(b) == [a |-> "Recv", b |-> b, corrupt |-> FALSE, encbib |-> FALSE, rx |-> RxEval(b.dest), tx |-> TxEval(b.dest), own |-> b.src = Node,
               admin |-> b.dest = Node, appdest |-> FALSE, sec |-> b.sec, plain |-> "", nsec |-> 0,
               idle0 |-> Len(idleQ), btypes |-> <<>>, rptroute |-> HasTx(b.rpt)]
 EvBoundary(n, nseen, nidle) == [a |-> "Boundary", n |-> n, seen |-> nseen, idle |-> nidle]
